@@ -256,17 +256,41 @@ func rulesC15(c *Ctx) {
 		ok := len(sp.Calls()) == 2
 		var pools []string
 		if ok {
-			a0, a1 := allArgs(sp.Calls()[0]), allArgs(sp.Calls()[1])
-			ok = a0[2] == a1[2] && a0[3] == a1[3] && vstr(a0[2]) == "param:amount"
-			pools = []string{vstr(a0[1]), vstr(a1[1])}
-			sort.Strings(pools)
-			ok = ok && len(pools) == 2 && strings.HasSuffix(pools[0], ".Escrow.Active") && strings.HasSuffix(pools[1], ".Escrow.Debonding")
+			// arguments by role, not position: the pool is the *SharePool, the amount is SlashEscrow's own amount
+			// parameter, the total is the remaining *Quantity the two calls share
+			type roles struct{ pool, amount, total ssa.Value }
+			get := func(call ssa.CallInstruction) roles {
+				var r roles
+				for _, a := range allArgs(call) {
+					switch {
+					case strings.HasSuffix(typeStr(a.Type()), "staking/api.SharePool"):
+						r.pool = a
+					case strings.HasSuffix(typeStr(a.Type()), "quantity.Quantity") && vstr(a) == "param:amount":
+						r.amount = a
+					case strings.HasSuffix(typeStr(a.Type()), "quantity.Quantity") && r.total == nil:
+						if cl, isCall := a.(*ssa.Call); isCall && calleeNameCommon(&cl.Call) == "common/quantity.(*Quantity).Clone" {
+							r.total = a
+						}
+					}
+				}
+				return r
+			}
+			r0, r1 := get(sp.Calls()[0]), get(sp.Calls()[1])
+			ok = r0.pool != nil && r1.pool != nil && r0.amount != nil && r0.amount == r1.amount && r0.total != nil && r0.total == r1.total
+			if ok {
+				pools = []string{vstr(r0.pool), vstr(r1.pool)}
+				sort.Strings(pools)
+				ok = strings.HasSuffix(pools[0], ".Escrow.Active") && strings.HasSuffix(pools[1], ".Escrow.Debonding")
+			}
 			// total = clone(Active.Balance).Add(Debonding.Balance), complete before the first pool is touched
-			if cl, isCall := a0[3].(*ssa.Call); ok && isCall && calleeNameCommon(&cl.Call) == "common/quantity.(*Quantity).Clone" && strings.HasSuffix(vstr(cl.Call.Args[0]), ".Escrow.Active.Balance") {
-				ops, straight := quantityOps(fn, a0[3], sp.Calls()[0])
-				ok = straight && len(ops) == 1 && strings.HasPrefix(ops[0], "Add(") && strings.HasSuffix(ops[0], ".Escrow.Debonding.Balance)")
-			} else {
-				ok = false
+			if ok {
+				cl := r0.total.(*ssa.Call)
+				if strings.HasSuffix(vstr(cl.Call.Args[0]), ".Escrow.Active.Balance") {
+					ops, straight := quantityOps(fn, r0.total, sp.Calls()[0])
+					ok = straight && len(ops) == 1 && strings.HasPrefix(ops[0], "Add(") && strings.HasSuffix(ops[0], ".Escrow.Debonding.Balance)")
+				} else {
+					ok = false
+				}
 			}
 		}
 		c.Check(ok, "C15.slash", fname(fn)+":both pools slashed with (amount, total = active+debonding)", c.P.Pos(fn.Pos()), "active and debonding pools are slashed with the same amount and the same pre-slash total", "the two pools are not slashed with the same (amount, total = active balance + debonding balance)")
